@@ -119,6 +119,10 @@ SIG = {
                          'Py.PyTxIn × Int'),
     'transaction_from_raw': ('transactions.py', 'Transaction.from_raw',
                              [('CODEOPS', 'List (Bytes × String)'), ('rawtxhex', 'Bytes')], 'Py.PyTx'),
+    # block headers
+    'blockheader_from_raw': ('block.py', 'BlockHeader.from_raw', [('rawhexdata', 'Bytes')], 'Py.PyHeader'),
+    'blockheader_serialize': ('block.py', 'BlockHeader.serialize_header', [('self_version', 'Int'), ('self_previous_block_hash', 'Bytes'), ('self_merkle_root', 'Bytes'), ('self_timestamp', 'Int'), ('self_target_bits', 'Int'), ('self_nonce', 'Int')], 'Bytes'),
+    'blockheader_hash': ('block.py', 'BlockHeader.get_block_hash', [('hashlib_sha256', 'Bytes → Bytes')] + [('self_version', 'Int'), ('self_previous_block_hash', 'Bytes'), ('self_merkle_root', 'Bytes'), ('self_timestamp', 'Int'), ('self_target_bits', 'Int'), ('self_nonce', 'Int')], 'Bytes'),
     # the original SignatureHash: works on a deep copy of self that it mutates
     'legacy_digest': ('transactions.py', 'Transaction.get_transaction_digest',
                       [('hashlib_sha256', 'Bytes → Bytes'), ('OPS', 'List (String × Bytes)'), ('self_version', 'Bytes'),
@@ -186,7 +190,7 @@ RECORDS = {'List Py.PyTxIn': ('txinput_to_bytes', True, ['txid', 'txout_index', 
            'List Py.PyTxOut': ('txoutput_to_bytes', True, ['amount', 'script_pubkey']),
            'List Py.PyWit': ('txwitness_to_bytes', False, ['stack'])}
 # methods of Transaction called on self from another method of Transaction: the callee gets the caller's parameters of the same names
-SELF_CALLS = {'get_size': 'transaction_get_size', '_get_hash': 'transaction_get_hash'}
+SELF_CALLS = {'get_size': 'transaction_get_size', '_get_hash': 'transaction_get_hash', 'serialize_header': 'blockheader_serialize'}
 # string functions of bech32.py: types of the locals (a table, like SIG for the parameters)
 STRFUNS = {'bech32_encode': {'combined': 'List Int'},
            'bech32_decode': {'pos': 'Int', 'hrp': 'List Char', 'data': 'List Int', 'spec': 'Option Int'},
@@ -208,7 +212,7 @@ TWEAKFUNS = {'negate_privkey': set(), 'tweak_taproot_pubkey': {'P', 'Q'}, 'tweak
 TWEAK_CALLS = {'point_add': 'schnorr_point_add', 'point_mul': 'schnorr_point_mul', 'full_pubkey_gen': 'schnorr_full_pubkey_gen',
                'negate_privkey': 'negate_privkey'}
 # parsers: `x.hex()` of bytes is the same data (hex strings are modelled as the bytes they denote), struct.unpack_from
-PARSERS = {'txoutput_from_raw', 'txinput_from_raw', 'transaction_from_raw'}
+PARSERS = {'txoutput_from_raw', 'txinput_from_raw', 'transaction_from_raw', 'blockheader_from_raw', 'blockheader_serialize', 'blockheader_hash'}
 # struct format characters: size in bytes (little-endian / no alignment only), unsigned
 FMT_INT = {'B': 1, 'H': 2, 'I': 4, 'Q': 8}
 # functions allowed to mutate `tmp = Transaction.copy(self)`: the copy's record lists become mutable *values* (lists of records).
@@ -218,6 +222,7 @@ MUTCOPY = {'legacy_digest'}
 # constructor argument order of the record classes (checked against the class's __init__ when used)
 REC_CTOR = {'TxOutput': ('Py.PyTxOut', ['amount', 'script_pubkey']), 'TxInput': ('Py.PyTxIn', ['txid', 'txout_index', 'script_sig', 'sequence']),
             'TxWitnessInput': ('Py.PyWit', ['stack']),
+            'BlockHeader': ('Py.PyHeader', ['version', 'previous_block_hash', 'merkle_root', 'timestamp', 'target_bits', 'nonce']),
             'Transaction': ('Py.PyTx', ['inputs', 'outputs', 'locktime', 'version', 'has_segwit', 'witnesses'])}
 # element types of the lists a function builds with `x = []` ... `x.append(e)` (each append is checked against it)
 LOCAL_LISTS = {'transaction_from_raw': {'inputs': 'List Py.PyTxIn', 'outputs': 'List Py.PyTxOut', 'witnesses': 'List Py.PyWit',
@@ -688,6 +693,9 @@ class Tr:
             body = s.e(n.elt); inner = s.pre; s.pre = saved
             lam = f'(fun ({v} : _) => do ' + ''.join(p + '; ' for p in inner) + f'pure {body})'
             return s.eff(f'List.mapM {lam} {it}')
+        if (isinstance(n, ast.IfExp) and isinstance(n.test, ast.Call) and getattr(n.test.func, 'id', '') == 'isinstance'
+                and len(n.test.args) == 2 and getattr(n.test.args[1], 'id', '') == 'bytes' and s.isbytes(n.test.args[0])):
+            return s.e(n.body)       # the signature table fixes the type: the other branch is never evaluated
         if isinstance(n, ast.IfExp):
             c = s.cond(n.test)
             saved = s.pre
@@ -871,15 +879,16 @@ class Tr:
     def unpack_from(s, n):
         """struct.unpack_from(fmt, buf, offset) -> (lean tuple expression, kinds)"""
         a = n.args
-        if len(a) != 3 or n.keywords: s.fail(n, 'unpack_from arguments')
+        exact = n.func.attr == 'unpack'          # struct.unpack: the buffer must have exactly the size of the format
+        if (len(a) != (2 if exact else 3)) or n.keywords: s.fail(n, 'unpack_from arguments')
         f = s.fmt_of(a[0])
         if f is None: s.fail(n, 'unpack_from format')
-        buf, off = s.e(a[1]), s.e(a[2])
+        buf, off = s.e(a[1]), (s.e(a[2]) if not exact else '(0 : Int)')
         if f[0] == 'dyn_s':
             return [s.eff(f'Py.unpackFromS {s.e(f[1])} {buf} {off}')], ['bytes']
         items = s.fmt_items(n, f[1])
         total = sum(z for _, z in items)
-        t = s.eff(f'Py.bufAt {buf} {off} {total}')
+        t = s.eff(f'Py.bufExact {buf} {total}' if exact else f'Py.bufAt {buf} {off} {total}')
         parts, kinds, pos = [], [], 0
         for k, z in items:
             sl = f'(List.take {z} (List.drop {pos} {t}))'
@@ -890,7 +899,10 @@ class Tr:
 
     def is_unpack_from(s, n):
         return (isinstance(n, ast.Call) and isinstance(n.func, ast.Attribute) and n.func.attr == 'unpack_from'
-                and isinstance(n.func.value, ast.Name) and n.func.value.id == 'struct')
+                and isinstance(n.func.value, ast.Name) and n.func.value.id == 'struct') or (
+                s.name in PARSERS and isinstance(n, ast.Call) and isinstance(n.func, ast.Attribute) and n.func.attr == 'unpack'
+                and isinstance(n.func.value, ast.Name) and n.func.value.id == 'struct' and len(n.args) == 2
+                and s.fmt_of(n.args[0]) is not None and s.fmt_of(n.args[0])[0] == 'const' and len(s.fmt_items(n, s.fmt_of(n.args[0])[1])) > 1)
 
     def tuple_kinds(s, v, k):
         """kinds of the components of a tuple-valued right-hand side (for the declaration of tuple targets)"""
@@ -1381,6 +1393,11 @@ class Tr:
             kw = '' if name in s.declared else 'let mut '
             s.declared.add(name)
             return s.flush(ind) + [f'{ind}{kw}{name} := {v}']
+        if (isinstance(st, ast.AugAssign) and isinstance(st.target, ast.Name) and st.target.id in s.fmtvars
+                and isinstance(st.op, ast.Add) and isinstance(st.value, ast.Constant) and isinstance(st.value.value, str)
+                and isinstance(s.fmtvars[st.target.id], ast.Constant)):
+            s.fmtvars[st.target.id] = ast.Constant(value=s.fmtvars[st.target.id].value + st.value.value)
+            return []
         if isinstance(st, ast.AugAssign) and isinstance(st.target, ast.Name):
             v = s.e(ast.BinOp(left=st.target, op=st.op, right=st.value))
             return s.flush(ind) + [f'{ind}{st.target.id} := {v}']
@@ -1621,6 +1638,11 @@ class Tr:
                 if (isinstance(st, ast.Assign) and len(st.targets) == 1 and isinstance(st.targets[0], ast.Name)
                         and not isinstance(st.value, ast.Name) and s.fmt_of(st.value) is not None):
                     s.fmtpre[st.targets[0].id] = st.value
+            for st in node.body:       # `fmt += "I"` at top level, in order
+                if (isinstance(st, ast.AugAssign) and isinstance(st.target, ast.Name) and st.target.id in s.fmtpre
+                        and isinstance(st.op, ast.Add) and isinstance(st.value, ast.Constant) and isinstance(st.value.value, str)
+                        and isinstance(s.fmtpre[st.target.id], ast.Constant)):
+                    s.fmtpre[st.target.id] = ast.Constant(value=s.fmtpre[st.target.id].value + st.value.value)
         pre = s.hoist(node, params)
         if node.name == '__init__':
             # self.x reads refer to parameter x (after the `self.x = x` copies)
@@ -1785,6 +1807,7 @@ def main():
             raise Unsupported('utils.py no longer takes G / point_add / point_mul / full_pubkey_gen from schnorr.py')
         CONSTS['Secp256k1Params._order'] = f'({ut.Secp256k1Params._order} : Int)'
         CONSTS['Secp256k1Params._field'] = f'({ut.Secp256k1Params._field} : Int)'
+        CONSTS['HEADER_SIZE'] = f'({consts.HEADER_SIZE} : Int)'
         CONSTS['NEGATIVE_SATOSHI'] = f'({consts.NEGATIVE_SATOSHI} : Int)'
         for k in ('ABSOLUTE_TIMELOCK_SEQUENCE', 'REPLACE_BY_FEE_SEQUENCE', 'EMPTY_TX_SEQUENCE'):
             CONSTS[k] = blit(getattr(consts, k))
